@@ -73,7 +73,7 @@ def cases(tier, seed):
         for tail in itertools.product(ops, repeat=n):
             if any(t[0] == "force" for t in tail):
                 hs.append((("def", 1), ("def", 2)) + tail)
-    styles = ["cells", "samefile", "lambda", "nested", "reload", "codeswap", "samefile"]
+    styles = ["cells", "samefile", "lambda", "nested", "reload", "codeswap", "samefile", "nosource"]
     chunk = []
     for i, h in enumerate(hs):
         chunk.append(dict(style=styles[i % len(styles)], h=[list(s) for s in h]))
@@ -101,7 +101,7 @@ def OUT(t, x):
 
 
 def src_of(style, k, shape=None):
-    if shape and style == "cells":
+    if shape and style in ("cells", "nosource"):
         return "\n" * (k % 2) + c12_shapes.text(shape, k)
     if style == "lambda":
         return f"f = lambda x: EXEC.append(('v{k}', x)) or ('v{k}', x)\n"
@@ -114,9 +114,11 @@ def src_of(style, k, shape=None):
 def define_cell(style, k, shape=None):
     _uid[0] += 1
     fn = f"<c12-cell-{os.getpid()}-{_uid[0]}>"
-    src = src_of(style, k, shape)
-    linecache.cache[fn] = (len(src), None, src.splitlines(True), fn)
-    g = {"__name__": "c12cells", "EXEC": EXEC, "OUT": OUT}
+    src = src_of("cells" if style == "nosource" else style, k, shape)
+    if style != "nosource":
+        linecache.cache[fn] = (len(src), None, src.splitlines(True), fn)
+    # ("nosource": built with exec, no source text anywhere - joblib has to tell versions apart from the code object alone)
+    g = dict({"__name__": "c12cells", "EXEC": EXEC, "OUT": OUT}, **c12_shapes.TAG_GLOBALS)
     exec(compile(src, fn, "exec"), g)
     return g["f"]
 
@@ -179,7 +181,7 @@ def run_history(style, h, ctx, d, shape=None, two_dirs=False):
                 if style == "reload":
                     with open(modfile, "w") as f:
                         if shape:
-                            f.write("EXEC = []\nOUT = None\n\n\n" + c12_shapes.text(shape, k) + "# pad\n" * k)
+                            f.write("EXEC = []\nOUT = None\n" + c12_shapes.TAG_GLOBALS_SRC + c12_shapes.text(shape, k) + "# pad\n" * k)
                         else:
                             f.write(f"EXEC = []\n\n\ndef f(x):\n    EXEC.append(('v{k}', x))\n    return ('v{k}', x)\n" + "# pad\n" * k)
                     importlib.invalidate_caches()
@@ -211,7 +213,7 @@ def run_history(style, h, ctx, d, shape=None, two_dirs=False):
                     live = {k: swap_holder["c"]}                     # only the newest code is live
                 else:
                     live[k] = mem.cache(define_cell(style, k, shape))
-                if two_dirs and style in ("cells", "lambda", "nested", "reload", "samefile") and k in live:
+                if two_dirs and style in ("cells", "lambda", "nested", "reload", "samefile", "nosource") and k in live:
                     live_b[k] = mem_b.cache(live[k].func)
                     if style == "reload":
                         got = live_b[k](-1)
@@ -345,7 +347,7 @@ def run_case(case, ctx):
                 run_hashtwin(ctx, d, harness.rng_for(ctx.seed, ID, "hashtwin", harness.h(case["hs"][0], 8), _))
                 run_hashtwin(ctx, d, harness.rng_for(ctx.seed, ID, "hashtwin2", harness.h(case["hs"][0], 8), _))
             for item in case["hs"]:
-                styles = ["cells", "samefile", "lambda", "nested", "reload", "codeswap"] if case["all_styles"] else sorted({item["style"], "cells"})
+                styles = ["cells", "samefile", "lambda", "nested", "reload", "codeswap", "nosource"] if case["all_styles"] else sorted({item["style"], "cells"})
                 for st in styles:
                     ctx.evaluated()
                     run_history(st, [tuple(s) for s in item["h"]], ctx, d)
@@ -354,7 +356,7 @@ def run_case(case, ctx):
                         ctx.evaluated()
                         run_history(st, [tuple(s) for s in item["h"]], ctx, d, two_dirs=True if _shape_i[0] % 2 else "alias")
                         del EXEC[:]
-                    if st in ("cells", "reload") and len(item["h"]) >= 3:
+                    if st in ("cells", "reload", "nosource") and len(item["h"]) >= 3:
                         # the same history with the versions' difference placed elsewhere in the definition
                         _shape_i[0] += 1
                         ctx.evaluated()
@@ -371,8 +373,8 @@ def run_case(case, ctx):
                     if valid_history(h + [s]):
                         h.append(s)
                 ctx.evaluated()
-                st = rng.choice(["cells", "samefile", "samefile", "lambda", "nested", "reload", "codeswap"])
-                run_history(st, h, ctx, d, shape=rng.choice(c12_shapes.NAMES) if st in ("cells", "reload") and rng.random() < 0.7 else None,
+                st = rng.choice(["cells", "samefile", "samefile", "lambda", "nested", "reload", "codeswap", "nosource"])
+                run_history(st, h, ctx, d, shape=rng.choice(c12_shapes.NAMES) if st in ("cells", "reload", "nosource") and rng.random() < 0.7 else None,
                             two_dirs=rng.choice([False, False, False, True, "alias"]))
                 del EXEC[:]
             if case["i"] % 20 == 0:
